@@ -53,3 +53,48 @@ def clear_lru(*modules):
                     cc()
                 except Exception:
                     pass
+
+
+def typed_point_mismatch(fn, n):
+    """Call a compiled callable at integer-valued points spelled as int64 arrays and compare with the
+    float64 spelling of the same point (the dtype of the point must not leak into the result).  Returns a description
+    of the first mismatch or None."""
+    for base in ([1 + (i % 3) for i in range(n)], [2 - (i % 2) for i in range(n)]):
+        with np.errstate(all="ignore"):
+            try:
+                ref = np.array(fn(np.array(base, dtype=np.float64)), dtype=float, copy=True)
+            except Exception:
+                continue
+            if not np.all(np.isfinite(ref)) or np.any(np.abs(ref) > 1e12):
+                continue        # singular / sanitised point: rounding of the point itself decides the result
+            for dt, tol in ((np.int64, 1e-12),):       # (float32 points legitimately compute in lower precision)
+                try:
+                    got = np.asarray(fn(np.array(base, dtype=dt)), dtype=float)
+                except Exception:
+                    continue    # integer arithmetic that NumPy itself rejects (int ** negative int): not judged
+                if got.shape != ref.shape or not np.allclose(got, ref, rtol=tol, atol=tol * (1 + (float(np.max(np.abs(ref))) if ref.size else 0.0)), equal_nan=True):
+                    return {"point": base, "dtype": np.dtype(dt).name, "got": got.tolist(), "float64": ref.tolist()}
+    return None
+
+
+class LiveMapping:
+    """The calling discipline of a scenario loop, applied to tree evaluation: ONE values dict per expression that is
+    updated in place for every new assignment, and every assignment evaluated twice.  Raises RepeatCallDiffers when the
+    two evaluations differ."""
+
+    __slots__ = ("fn", "d")
+
+    def __init__(self, fn):
+        self.fn = fn
+        self.d = {}
+
+    def __call__(self, values):
+        self.d.clear()
+        self.d.update(values)
+        r1 = self.fn(self.d)
+        c1 = np.array(r1, dtype=float, copy=True)
+        r2 = self.fn(self.d)
+        c2 = np.asarray(r2, dtype=float)
+        if c1.shape != c2.shape or not np.array_equal(c1, c2, equal_nan=True):
+            raise RepeatCallDiffers(f"evaluate twice at {dict(values)}: first {c1.tolist()} second {c2.tolist()}")
+        return r2
